@@ -169,7 +169,10 @@ def escape_project(seed, i):
     from . import projgen
     rng = random.Random(seed * 2909 + i)
     p = projgen.gen_project(seed + 1300, i, projgen.profile(p_escape=0.0, p_tasks=0.0, p_custom_build=0.0, p_download=0.0, p_cycle=0.0,
-                                                            p_varopts=0.0, p_cli_define=0.0, p_hard_missing=0.0, n_apps=(1, 2)))
+                                                            p_varopts=0.0, p_cli_define=0.0, p_hard_missing=0.0, n_apps=(1, 2),
+                                                            # the oracle below reads the literal in the commands of the root context's CC / LINK rules:
+                                                            # the shape that takes LINK away from the root context does not go with it
+                                                            p_no_link_rule_builder=0.0))
     root = p["files"]["laze-project.yml"][0]
     default = __import__("lazeverif.projcheck", fromlist=["x"]).default_context(p)
     # the escaped name is a variable of the project, or one of the LOAD-TIME variables (the early pass must leave their escapes alone too)
